@@ -203,6 +203,17 @@ def isolation(tier, seed, info):
     rounds = 2 if tier == 'quick' else 8
     seeds_hash = ['0', '1', '4242'] if tier == 'quick' else ['0', '1', '2', '3', '4242', '99', '12345', 'random']
     out = {'failures': [], 'known_hits': [], 'evaluations': 0, 'distinct_nontrivial': 0, 'summary': {'runs': 0}}
+    # first use in a process against later use, per well-known header name (children forked from a pristine process)
+    fu = _run('multi_probe.py', [seed, 0, 'firstuse'])
+    if 'error' in fu:
+        out['failures'].append(Failure({'probe': 'multi', 'seed': seed, 'n': 0, 'mode': 'firstuse'}, 'probe-crash', 'first-use probe crashed: ' + fu['error']))
+        return out
+    out['evaluations'] += fu['n_ops']; out['summary']['first_use_names'] = len(fu['names'])
+    bad = [nm for nm, a, b in zip(fu['names'], fu['alone'], fu['after']) if a != b]
+    if bad:
+        out['failures'].append(Failure({'probe': 'multi', 'seed': seed, 'n': 0, 'mode': 'firstuse'}, 'first-use-differs',
+                                       'a history starting with header name(s) %s gives different results as the first use of the library in a process than after other instances were used' % bad[:5]))
+        return out
     for rd in range(rounds):
         s = seed * 100 + rd
         base = _run('multi_probe.py', [s, n, 'isolated'])
@@ -233,6 +244,12 @@ def isolation(tier, seed, info):
 
 
 def isolation_replay(p):
+    if p.get('mode') == 'firstuse':
+        fu = _run('multi_probe.py', [p['seed'], 0, 'firstuse'])
+        if 'error' in fu:
+            return 'probe crashed: ' + fu['error']
+        bad = [nm for nm, a, b in zip(fu['names'], fu['alone'], fu['after']) if a != b]
+        return ('first use differs from later use for header name(s) %s' % bad[:5]) if bad else None
     base = _run('multi_probe.py', [p['seed'], p['n'], 'isolated'])
     r = _run('multi_probe.py', [p['seed'], p['n'], p['mode']], env={'PYTHONHASHSEED': str(p.get('hashseed', '0'))})
     if 'error' in base or 'error' in r:
@@ -264,7 +281,58 @@ def memory_replay(p):
     return r['failures'][0]['text'] if r['failures'] else None
 
 
+# ---------------------------------------------------------------------------------------------------- schedules
+THREAD_KINDS = {'C12': ['huffenc'], 'C13': ['huffdec'], 'C20': ['huffenc', 'huffdec', 'codec'], 'C01': ['codec'], 'C02': ['codec'], 'C03': ['codec']}
+
+
+def threads(prop, tier, seed, info):
+    """own instances per thread, sequential results against concurrent ones (thread_probe.py)"""
+    out = {'failures': [], 'known_hits': [], 'evaluations': 0, 'distinct_nontrivial': 0, 'summary': {'thread_runs': 0}}
+    for kind in THREAD_KINDS.get(prop, []):
+        for s in ([seed] if tier == 'quick' else [seed, seed + 1, seed + 2, seed + 3]):
+            r = _run('thread_probe.py', [s, kind, 3 if tier == 'quick' else 6])
+            out['summary']['thread_runs'] += 1
+            if 'error' in r:
+                out['failures'].append(Failure({'probe': 'threads', 'seed': s, 'kind': kind}, 'probe-crash', 'thread probe crashed: ' + r['error']))
+                return out
+            out['evaluations'] += r['evaluations']; out['distinct_nontrivial'] += r['evaluations']
+            for f in r['failures'][:1]:
+                out['failures'].append(Failure({'probe': 'threads', 'seed': s, 'kind': kind}, 'schedule-dependent',
+                                               'with 4 threads, each using its own instances, call %d of thread %d (%s) gave %s; alone it gives %s' % (
+                                                   f['index'], f['thread'], f['call'][:80], f['got'][:100], f['expected'][:100])))
+                return out
+    return out
+
+
+def threads_replay(p):
+    for attempt in range(5):
+        r = _run('thread_probe.py', [p['seed'], p['kind'], 6])
+        if 'error' in r:
+            return 'probe crashed: ' + r['error']
+        if r['failures']:
+            f = r['failures'][0]
+            return 'call %d of thread %d gave %s; alone it gives %s' % (f['index'], f['thread'], f['got'][:100], f['expected'][:100])
+    return None
+
+
+def _merge(a, b):
+    for k in ('failures', 'known_hits'):
+        a[k] = a.get(k, []) + b.get(k, [])
+    for k in ('evaluations', 'distinct_nontrivial'):
+        a[k] = a.get(k, 0) + b.get(k, 0)
+    if b.get('summary'):
+        a['summary'] = dict(a.get('summary') or {}, **b['summary'])
+    return a
+
+
 def run(prop, tier, seed, info):
+    base = _run_one(prop, tier, seed, info)
+    if prop in THREAD_KINDS and not base['failures']:
+        base = _merge(base, threads(prop, tier, seed, info))
+    return base
+
+
+def _run_one(prop, tier, seed, info):
     if prop == 'C07':
         return memory(tier, seed, info)
     if prop == 'C16':
@@ -277,6 +345,8 @@ def run(prop, tier, seed, info):
 
 
 def replay(prop, p):
+    if isinstance(p, dict) and p.get('probe') == 'threads':
+        return threads_replay(p)
     if prop == 'C07':
         return memory_replay(p)
     if prop == 'C16':
